@@ -108,6 +108,18 @@ def p_value(a):
     return v
 
 
+def p_log10(a):
+    import math
+
+    return sum(float(e) * math.log10(b) for b, e in a)
+
+
+def p_close(a, b, tol=1e-9):
+    """Numeric scales of two prefixes agree within `tol` relative (compared through
+    logarithms so that astronomically large exponents cannot overflow a float)."""
+    return abs(p_log10(a) - p_log10(b)) <= tol / 2.302585092994046 * 1.0000001 + 1e-15
+
+
 # --------------------------------------------------------------------- units
 ONE = ((), ())
 
